@@ -14,7 +14,7 @@ import (
 	"time"
 
 	"github.com/rqlite/rqlite/v10/command/proto"
-	"github.com/rqlite/rqlite/v10/random"
+	"github.com/rqlite/rqlite/v10/internal/random"
 )
 
 // g8bLogger returns a logger that is silent unless VERIF_DEBUG is set.
@@ -55,14 +55,21 @@ func g8bOpenSingle(id, dir string, configure func(*Store)) (*g8bNode, error) {
 	if err != nil {
 		return nil, err
 	}
+	// a single voter cannot lose its lease; short timeouts only make the first
+	// election quick
+	n.S.HeartbeatTimeout = 250 * time.Millisecond
+	n.S.ElectionTimeout = 250 * time.Millisecond
+	n.S.LeaderLeaseTimeout = 250 * time.Millisecond
 	if configure != nil {
 		configure(n.S)
 	}
+	_, statErr := os.Stat(n.S.raftDBPath)
+	existing := statErr == nil
 	if err := n.S.Open(); err != nil {
 		n.Ln.Close()
 		return nil, fmt.Errorf("open: %w", err)
 	}
-	if !n.S.HasExistingState() {
+	if !existing {
 		if err := n.S.Bootstrap(NewServer(n.S.ID(), n.S.Addr(), true)); err != nil {
 			n.S.Close(true)
 			n.Ln.Close()
@@ -94,6 +101,9 @@ func g8bExec(s *Store, tx bool, stmts ...string) ([]*proto.ExecuteQueryResponse,
 	}
 	for _, r := range res {
 		if e := r.GetError(); e != "" {
+			return res, idx, fmt.Errorf("statement error: %s", e)
+		}
+		if e := r.GetE().GetError(); e != "" {
 			return res, idx, fmt.Errorf("statement error: %s", e)
 		}
 	}
